@@ -13,7 +13,7 @@ From AV Require Import UF.TrUfStep.
 Import ListNotations.
 
 (* ---- the empty state *)
-Theorem tr_empty_inv : tinv [] tr_empty.
+Theorem tr_empty_inv : forall {P : nat -> Prop}, tinvP P [] tr_empty.
 Proof.
   assert (Hm : forall s x, ~ mem_of tr_empty s x).
   { intros s x [l [Hl _]]. destruct s; discriminate. }
@@ -116,6 +116,10 @@ Record mid (E : list (nat * nat)) (st : truf) (x y : nat) (st2 : truf) (xs ys : 
   md_fxy : xn = true -> yn = true -> xs <> ys;
   md_ox : xn = false -> aget x (t_ids st) <> None
 }.
+
+Section WithP.
+Context {P : nat -> Prop}.
+Local Notation tinv := (tinvP P).
 
 Lemma mid_intro : forall E st x y, tinv E st ->
   exists st1 xs xn st2 ys yn,
@@ -226,7 +230,7 @@ Qed.
 (* presence of map keys, except for the fresh classes *)
 Lemma mid_pres : forall E st x y st2 xs ys xn yn, tinv E st -> mid E st x y st2 xs ys xn yn ->
   forall d, dominant st2 d ->
-  (xn = true /\ d = xs) \/ (yn = true /\ d = ys) \/ (ahas d (t_conn st2) = true /\ ahas d (t_rev st2) = true).
+  (xn = true /\ d = xs) \/ (yn = true /\ d = ys) \/ P d \/ (ahas d (t_conn st2) = true /\ ahas d (t_rev st2) = true).
 Proof.
   intros E st x y st2 xs ys xn yn Ht Hm.
   intros d Hd. apply (md_dom _ _ _ _ _ _ _ _ _ Hm) in Hd. destruct Hd as [Hd|[Hd|Hd]]; [|auto|auto].
@@ -278,9 +282,10 @@ Lemma finish_asc : forall E st x y st2 xs ys xn yn st3,
 Proof.
   intros E st x y st2 xs ys xn yn st3 Ht Hm Hs Hi Hsub Hc3 Hcn HkC HkR.
   apply tinv_split. split; [assumption|]. split; [|split].
-  - intros d Hd. right.
+  - intros d Hd.
     assert (Hd2 : dominant st2 d) by (revert Hd; unfold dominant, nsets; rewrite Hs, Hsub; auto).
-    destruct (mid_pres E st x y st2 xs ys xn yn Ht Hm d Hd2) as [[_ ->]|[[_ ->]|[H1 H2]]]; split; auto.
+    destruct (mid_pres E st x y st2 xs ys xn yn Ht Hm d Hd2) as [[_ ->]|[[_ ->]|[Hpd|[H1 H2]]]];
+      [right; split; auto|right; split; auto|left; exact Hpd|right; split; auto].
   - eapply compl_after_asc with (st := st2) (from := xs) (to := ys); try eassumption.
     + apply (md_cinv _ _ _ _ _ _ _ _ _ Hm).
     + eapply mid_compl; eassumption.
@@ -408,7 +413,7 @@ Lemma case_old_related : forall E st x y st2 xs ys,
 Proof.
   intros E st x y st2 xs ys Ht Hm R. apply tinv_split.
   split; [apply (md_cinv _ _ _ _ _ _ _ _ _ Hm)|]. split; [|split].
-  - intros d Hd. right.
+  - intros d Hd.
     destruct (mid_pres E st x y st2 xs ys false false Ht Hm d Hd) as [[H _]|[[H _]|H]]; [discriminate|discriminate|exact H].
   - intros a b u v Da Db Ma Mb R'.
     apply (mid_compl E st x y st2 xs ys false false Ht Hm a b u v Da Db Ma Mb).
@@ -426,7 +431,7 @@ Qed.
 Lemma with_cr_same : forall st, with_cr st (t_conn st) (t_rev st) = st.
 Proof. intros []; reflexivity. Qed.
 
-Theorem tr_add_cases : collapse_ok_stmt -> forall E st x y, tinv E st ->
+Theorem tr_add_cases : collapse_ok_stmt P -> forall E st x y, tinv E st ->
   exists st' b, tr_add st x y = Ok (st', b) /\ tinv (E ++ [(x, y)]) st'.
 Proof.
   intros collapse_ok E st x y Ht.
@@ -465,7 +470,7 @@ Proof.
         destruct (collapse_ok E st2 x y xs ys) as [st' [Ec Ht']].
         -- apply (md_cinv _ _ _ _ _ _ _ _ _ Hm).
         -- intros d Hd.
-           destruct (mid_pres E st x y st2 xs ys false false Ht Hm d Hd) as [[H _]|[[H _]|H]]; [discriminate|discriminate|right; exact H].
+           destruct (mid_pres E st x y st2 xs ys false false Ht Hm d Hd) as [[H _]|[[H _]|H]]; [discriminate|discriminate|exact H].
         -- eapply mid_compl; eassumption.
         -- apply (md_ids _ _ _ _ _ _ _ _ _ Hm).
         -- apply (md_dx _ _ _ _ _ _ _ _ _ Hm).
@@ -481,8 +486,7 @@ Proof.
            rewrite (asc_early st2 xs ys Hxy). cbn [bind].
            assert (Hsame : with_cr st2 (ensure xs (t_conn st2)) (t_rev st2) = st2).
            { unfold ensure. destruct (aget xs (t_conn st2)) eqn:Hk; [apply with_cr_same|]. exfalso.
-             destruct (mid_pres E st x y st2 xs ys false false Ht Hm xs (md_dx _ _ _ _ _ _ _ _ _ Hm)) as [[H _]|[[H _]|[H _]]];
-               try discriminate. unfold ahas in H; rewrite Hk in H; discriminate. }
+             unfold eget in Hxy; rewrite Hk in Hxy; cbn in Hxy; discriminate. }
            rewrite Hsame. exists st2, true. split; [reflexivity|].
            eapply case_old_related; [exact Ht|exact Hm|].
            apply smem_in in Hxy.
@@ -495,11 +499,12 @@ Proof.
 Qed.
 
 Section Cases.
-  Hypothesis collapse_ok : collapse_ok_stmt.
+  Hypothesis collapse_ok : collapse_ok_stmt P.
   Theorem tr_add_inv_gen : forall E st x y, tinv E st ->
     exists st' b, tr_add st x y = Ok (st', b) /\ tinv (E ++ [(x, y)]) st'.
   Proof. exact (tr_add_cases collapse_ok). Qed.
 End Cases.
+End WithP.
 
 Print Assumptions tr_empty_inv.
 Print Assumptions tr_add_inv_gen.
